@@ -193,12 +193,41 @@ func textFeatures(text string) string {
 	return strings.Join(fs, ",")
 }
 
+// c14Probe: an erroneous text parsed BEFORE each case's text; the errors reported for it must still
+// be the same (and inside it) after the later parse — a result belongs to its own text for good.
+const c14Probe = "send [COIN 10] (\n  source = @a\n  destination = \nset_tx_meta(1"
+
+func errsKey(errs []numscript.ParserError) string {
+	var sb strings.Builder
+	for _, e := range errs {
+		fmt.Fprintf(&sb, "%d:%d-%d:%d %s|", e.Range.Start.Line, e.Range.Start.Character, e.Range.End.Line, e.Range.End.Character, e.Msg)
+	}
+	return sb.String()
+}
+
 func runC14(w *mc.Worker) {
+	var probe numscript.ParseResult
+	probeKey := ""
+	mkProbe := func() {
+		guard(func() { probe = numscript.Parse(c14Probe); probeKey = errsKey(probe.GetParsingErrors()) })
+	}
+	mkProbe()
 	textSpace(w, w.Tier, func(text string, edited bool) {
 		w.Journal(text)
 		var pr numscript.ParseResult
 		pmsg, where := guard(func() { pr = numscript.Parse(text) })
 		c := Case{Script: text}
+		if probeKey != "" {
+			now := ""
+			guard(func() { now = errsKey(probe.GetParsingErrors()) })
+			if now != probeKey {
+				c2 := c
+				c2.Observed = "errors of the earlier text before: " + probeKey + " after: " + now
+				c2.Extra = map[string]any{"earlier_text": c14Probe}
+				w.Violation("C14.earlier-result-changed", "the errors reported for an earlier text changed when a later text was parsed (they no longer describe the text they were reported for)", len(text), c2)
+				mkProbe()
+			}
+		}
 		if pmsg != "" {
 			w.Eval(text, edited, "panic")
 			c.Observed = "panic: " + pmsg + " @" + where
